@@ -82,6 +82,35 @@ Section Pass.
     fold (nprog p2). destruct (eval_pass catch (nprog p2) t v2) as [r l3]. reflexivity.
   Qed.
 
+  (* ---- the pass as an explicit left fold over the statements (Gauss-Seidel): the state is (store, exception, log);
+          a statement runs on the store the fold has reached; after an exception nothing runs any more ---- *)
+  Definition pass_step (catch : bool) (t : Z) (st : (vals num * option Z) * list access) (s : stmt num)
+    : (vals num * option Z) * list access :=
+    match st with
+    | ((v, None), l) => let '(r, l1) := exec_stmt catch t v s in (r, l ++ l1)
+    | _ => st
+    end.
+
+  Lemma fold_stuck catch t (prog : program num) v c l :
+    fold_left (pass_step catch t) prog ((v, Some c), l) = ((v, Some c), l).
+  Proof. induction prog as [|s r IH]; [reflexivity|exact IH]. Qed.
+
+  Lemma eval_pass_fold_gen catch t (prog : program num) : forall v l0,
+    (let '(r, l) := eval_pass catch prog t v in (r, l0 ++ l)) = fold_left (pass_step catch t) prog ((v, None), l0).
+  Proof.
+    induction prog as [|s rest IH]; intros v l0; cbn [Eval.eval_pass fold_left pass_step].
+    - rewrite app_nil_r. reflexivity.
+    - destruct (exec_stmt catch t v s) as [[v' [c|]] l1].
+      + rewrite fold_stuck. reflexivity.
+      + rewrite <- IH. destruct (eval_pass catch rest t v') as [r l2]. rewrite app_assoc. reflexivity.
+  Qed.
+
+  Theorem script_pass_is_fold (p : sprogram) catch t v :
+    eval_pass catch (nprog p) t v = fold_left (pass_step catch t) (nprog p) ((v, None), []).
+  Proof.
+    rewrite <- eval_pass_fold_gen. destruct (eval_pass catch (nprog p) t v) as [r l]. reflexivity.
+  Qed.
+
   (* ---- what one statement does: the value of its right-hand side, stored in its left-hand cell, nothing else ---- *)
   Theorem statement_effect y k (e : sexpr) catch t v x le q :
     eval_expr catch t v (nexpr e) = (EVal x, le) ->
